@@ -462,7 +462,11 @@ func TestRun(t *testing.T) {
 	synctest.Test(t, func(t *testing.T) {
 		h := hx.Open()
 		if ops := hx.ReplayOps(); ops != nil {
-			replayCases(h, ops)
+			if isQueueOps(ops) { // queue-component witness (ring_test.go)
+				replayQueueOps(h, ops)
+			} else {
+				replayCases(h, ops)
+			}
 			h.Close()
 			syscall.Exit(0)
 		}
